@@ -124,6 +124,9 @@ impl<'a> LinkBuilder<'a> {
 
         self.router_tx.send((0, event))?;
 
+        #[cfg(rumqtt_verif)]
+        crate::verif::block_point(|| !link_rx.is_empty() || link_rx.is_disconnected());
+
         link_rx.recv()?;
         let notification = outgoing_data_buffer.lock().pop_front().unwrap();
 
@@ -137,6 +140,139 @@ impl<'a> LinkBuilder<'a> {
         let tx = LinkTx::new(id, self.router_tx.clone(), incoming_data_buffer);
         let rx = LinkRx::new(id, self.router_tx, link_rx, outgoing_data_buffer);
         Ok((tx, rx, notification))
+    }
+}
+
+/// First half of `LinkBuilder::build`: the `Connect` event has been sent, the
+/// router has not necessarily answered yet.
+#[cfg(rumqtt_verif)]
+pub struct VerifPendingLink {
+    router_tx: Sender<(ConnectionId, Event)>,
+    link_rx: Receiver<()>,
+    outgoing_data_buffer: Arc<Mutex<VecDeque<Notification>>>,
+    incoming_data_buffer: Arc<Mutex<VecDeque<Packet>>>,
+}
+
+#[cfg(rumqtt_verif)]
+pub enum VerifFinish {
+    Ready(LinkTx, LinkRx, Notification),
+    Pending(VerifPendingLink),
+    Refused,
+}
+
+#[cfg(rumqtt_verif)]
+impl LinkBuilder<'_> {
+    /// `build()` up to and including the `Connect` event, without the
+    /// blocking wait for the router's answer.
+    pub fn verif_build_start(self) -> Result<VerifPendingLink, LinkError> {
+        let mut connection = Connection::new(
+            self.tenant_id,
+            self.client_id.to_owned(),
+            self.clean_session,
+            self.dynamic_filters,
+        );
+
+        connection
+            .last_will(self.last_will, self.last_will_properties)
+            .topic_alias_max(self.topic_alias_max);
+        let incoming = Incoming::new(connection.client_id.to_owned());
+        let (outgoing, link_rx) = Outgoing::new(connection.client_id.to_owned());
+        let outgoing_data_buffer = outgoing.buffer();
+        let incoming_data_buffer = incoming.buffer();
+
+        let event = Event::Connect {
+            connection,
+            incoming,
+            outgoing,
+        };
+
+        self.router_tx.try_send((0, event))?;
+        Ok(VerifPendingLink {
+            router_tx: self.router_tx,
+            link_rx,
+            outgoing_data_buffer,
+            incoming_data_buffer,
+        })
+    }
+}
+
+#[cfg(rumqtt_verif)]
+impl VerifPendingLink {
+    /// Second half of `build()`, non-blocking.
+    pub fn try_finish(self) -> VerifFinish {
+        match self.link_rx.try_recv() {
+            Ok(()) => {}
+            Err(flume::TryRecvError::Empty) => return VerifFinish::Pending(self),
+            Err(flume::TryRecvError::Disconnected) => return VerifFinish::Refused,
+        }
+        let notification = self.outgoing_data_buffer.lock().pop_front().unwrap();
+        let id = match notification {
+            Notification::DeviceAck(Ack::ConnAck(id, ..)) => id,
+            _ => return VerifFinish::Refused,
+        };
+        let tx = LinkTx::new(id, self.router_tx.clone(), self.incoming_data_buffer);
+        let rx = LinkRx::new(
+            id,
+            self.router_tx,
+            self.link_rx,
+            self.outgoing_data_buffer,
+        );
+        VerifFinish::Ready(tx, rx, notification)
+    }
+}
+
+#[cfg(rumqtt_verif)]
+impl LinkTx {
+    /// `notify()` without awaiting: one `DeviceData` event, `try_send`.
+    pub fn verif_notify(&mut self) -> Result<(), LinkError> {
+        self.router_tx
+            .try_send((self.connection_id, Event::DeviceData))?;
+        Ok(())
+    }
+
+    pub fn verif_id(&self) -> ConnectionId {
+        self.connection_id
+    }
+
+    /// Any event under this link's connection id, `try_send`.
+    pub fn verif_event(&mut self, event: Event) -> Result<(), LinkError> {
+        self.router_tx.try_send((self.connection_id, event))?;
+        Ok(())
+    }
+}
+
+#[cfg(rumqtt_verif)]
+impl LinkRx {
+    /// `exchange()` without awaiting. `Ok(false)`: no wake-up pending.
+    /// `Err`: the router dropped this connection's handle.
+    pub fn verif_try_exchange(
+        &mut self,
+        notifications: &mut VecDeque<Notification>,
+    ) -> Result<bool, LinkError> {
+        match self.router_rx.try_recv() {
+            Ok(()) => {}
+            Err(flume::TryRecvError::Empty) => return Ok(false),
+            Err(flume::TryRecvError::Disconnected) => return Err(LinkError::Recv(RecvError::Disconnected)),
+        }
+        mem::swap(&mut *self.send_buffer.lock(), notifications);
+        Ok(true)
+    }
+
+    /// `wake()`/`ready()` with `try_send`.
+    pub fn verif_try_ready(&self) -> Result<(), LinkError> {
+        self.router_tx
+            .try_send((self.connection_id, Event::Ready))?;
+        Ok(())
+    }
+
+    /// Number of wake-ups pending and whether the router side is gone.
+    pub fn verif_signal(&self) -> (usize, bool) {
+        (self.router_rx.len(), self.router_rx.is_disconnected())
+    }
+
+    /// What is left in the shared outgoing buffer (used after a link ended).
+    pub fn verif_leftover(&self) -> VecDeque<Notification> {
+        mem::take(&mut *self.send_buffer.lock())
     }
 }
 
